@@ -8,6 +8,8 @@ M10 == INSTANCE Mon_C10
 M11 == INSTANCE Mon_C11
 M12 == INSTANCE Mon_C12
 M15 == INSTANCE Mon_C15
+M13 == INSTANCE Mon_C13
+M14 == INSTANCE Mon_C14
 VARIABLE mon
 mcvars == <<s, mon>>
 
@@ -17,13 +19,16 @@ MonCfg == [k \in {"initMin", "initMax", "reps", "base", "cyclic", "annTTL", "col
                                                      subs |-> SetToSeq(Cfg.inst[i].subs)]],
               findMatch |-> [f \in DOMAIN Cfg.findMatch |-> SetToSeq(Cfg.findMatch[f])],
               rejectCtr |-> SetToSeq(Cfg.rejectCtr), ann0 |-> Cfg.ann0, peers |-> Cfg.peers,
-              dsts |-> <<"mc">> \o Cfg.peers]
+              dsts |-> <<"mc">> \o Cfg.peers,
+              egs |-> Cfg.egs, subTTL |-> Cfg.subTTL, refresh |-> Cfg.refresh, findTTL |-> Cfg.findTTL,
+              watch0 |-> SetToSeq(UNION Range(Cfg.watch0) \ {"ALL"}),
+              match |-> [f \in DOMAIN Match |-> SetToSeq(Match[f])], svcs |-> SetToSeq(UNION Range(Match))]
 Step(m, e) == CASE Mon = "C06" -> M06!MonStep(m, e) [] Mon = "C10" -> M10!MonStep(m, e)
                 [] Mon = "C11" -> M11!MonStep(m, e) [] Mon = "C12" -> M12!MonStep(m, e)
-                [] Mon = "C15" -> M15!MonStep(m, e)
+                [] Mon = "C15" -> M15!MonStep(m, e) [] Mon = "C13" -> M13!MonStep(m, e) [] Mon = "C14" -> M14!MonStep(m, e)
 MInit == CASE Mon = "C06" -> M06!MonInit(MonCfg) [] Mon = "C10" -> M10!MonInit(MonCfg)
            [] Mon = "C11" -> M11!MonInit(MonCfg) [] Mon = "C12" -> M12!MonInit(MonCfg)
-           [] Mon = "C15" -> M15!MonInit(MonCfg)
+           [] Mon = "C15" -> M15!MonInit(MonCfg) [] Mon = "C13" -> M13!MonInit(MonCfg) [] Mon = "C14" -> M14!MonInit(MonCfg)
 RECURSIVE Fold(_, _)
 Fold(m, es) == IF es = <<>> THEN m ELSE Fold(Step(m, Head(es)), Tail(es))
 MCInit == Init /\ mon = MInit
@@ -73,8 +78,27 @@ C06_Inputs == LifeOps \cup SubInputs({"a1"}, {1}, {0, 7}, {0, 2, FOREVER}) \cup 
 C11_Inputs == LifeOps \cup SubInputs({"a1"}, {1, 3}, {0, 7}, {0, 2}) \cup {Sub("a1", FALSE, FALSE, "s3", 1, 0, 2)}
 C06_A == TV(0, 0, 0, 0, 4, 0, 0) @@ [inst |-> I1only, ann0 |-> <<"I1">>, rejectCtr |-> {7}] @@ CfgDefault
 C06_B == TV(1, 0, 0, 0, 4, 0, 0) @@ [inst |-> I1only, ann0 |-> <<"I1">>, rejectCtr |-> {7}] @@ CfgDefault
+\* ---- C14: subscriber
+SubOps(gs, srvs) == {[op |-> o, g |-> g, srv |-> a] : o \in {"subscribe", "unsubscribe"}, g \in gs, a \in srvs}
+                    \cup {[op |-> "sub_start"], [op |-> "sub_stop"]}
+C14_Inputs == SubOps({"G1", "G2"}, {"a1", "a2"})
+C14_A == [egs |-> [G1 |-> [ep |-> "l1"], G2 |-> [ep |-> "l2"]], subTTL |-> 6, refresh |-> 2, peers |-> Peers2] @@ CfgDefault
+C14_B == [egs |-> [G1 |-> [ep |-> "l1"], G2 |-> [ep |-> "l2"]], subTTL |-> FOREVER, refresh |-> 0, peers |-> Peers2] @@ CfgDefault
+\* ---- C13: find task
+Offer(src, svc, ttl, reb) == [op |-> "rx", src |-> src, mc |-> TRUE, reboot |-> reb, uc |-> TRUE,
+                              es |-> <<[ty |-> "offer", svc |-> svc, ttl |-> ttl]>>]
+C13_Match == [F1 |-> {"s1", "s2"}, F3 |-> {"s3"}]
+C13_Inputs == {[op |-> "disc_start"], [op |-> "disc_stop"]}
+              \cup {Offer("a1", v, t, FALSE) : v \in {"s1", "s3"}, t \in {0, 1, FOREVER}}
+              \cup {Offer("a1", "s2", 2, TRUE)}
+C13_A == [watch0 |-> [L1 |-> {"F1"}, L2 |-> {"F3"}], initMin |-> 0, initMax |-> 1, reps |-> 2, base |-> 1,
+          randVals |-> {0, 1}, peers |-> Peers2] @@ CfgDefault
+C13_B == [watch0 |-> [L1 |-> {"F1"}, L2 |-> {"F3"}], initMin |-> 1, initMax |-> 1, reps |-> 1, base |-> 2,
+          randVals |-> {0, 1}, peers |-> Peers2] @@ CfgDefault
 NoMatch == <<>>
 NoSw == AllOff
+SwFindAll == [AllOff EXCEPT !.FindIgnoresFound = TRUE]
+SwSubOrder == [AllOff EXCEPT !.StopSubNotDeferred = TRUE]
 SwD3 == [AllOff EXCEPT !.DeferRebootFanout = TRUE]
 SwD4 == [AllOff EXCEPT !.FindAnswerIgnoresStop = TRUE]
 SwD5 == [AllOff EXCEPT !.NonCyclicKeepsAnswering = TRUE, !.FindAnswerIgnoresStop = TRUE]
